@@ -210,6 +210,36 @@ pub fn iso_case(args: &Args, idx: u64) -> CaseOut {
             }
         }
     }
+    // the same rule over the library's own in-memory store, with an imported counter-less credential whose
+    // stored RP ID is spelled as another implementation might have left it (that store finds by id alone)
+    {
+        use passkey_authenticator::MemoryStore;
+        let spelled = *rng.pick(&["", "EXAMPLE.COM", "example.com", "example.com."]);
+        let (pk, _, _) = seeded_passkey(&mut rng, spelled, &[0x77; 16], Some(b"u"), None, None);
+        let fields = |p: &passkey_types::Passkey| {
+            use coset::CborSerializable;
+            (p.rp_id.clone(), p.counter, p.user_handle.as_ref().map(|h| h.to_vec()), p.credential_id.to_vec(), p.key.clone().to_vec().unwrap_or_default())
+        };
+        let before = fields(&pk);
+        let mut m = MemoryStore::new();
+        m.insert(pk.credential_id.to_vec(), pk);
+        let mut a2 = crate::util::mk_auth(m, rig.uv.clone(), cfg);
+        rig.uv.set_outcome(crate::collab::UvOutcome::Check { presence: true, verification: true });
+        for n in 0..2 {
+            let r = block_on(a2.get_assertion(ga_request(rp, &[2u8; 32], Some(vec![descriptor(&[0x77; 16])]), None, true, true)));
+            if let Ok(resp) = &r {
+                let reported = authdata::decode(&resp.auth_data.to_vec()).map(|a| a.counter).unwrap_or(u32::MAX / 3);
+                if reported != 0 {
+                    viol(&mut out, "counter-less credential reports a non-zero counter", format!("in-memory store, imported credential with stored RP ID {spelled:?}: {reported}"), 1000 + n);
+                }
+            }
+            let now = a2.store().get(&vec![0x77u8; 16]).map(fields);
+            if now.as_ref() != Some(&before) {
+                viol(&mut out, "counter-less credential was rewritten by an assertion", format!("in-memory store, imported credential: stored RP ID {:?} -> {:?}, counter {:?} -> {:?}", before.0, now.as_ref().map(|x| x.0.clone()), before.1, now.as_ref().map(|x| x.1)), 1000 + n);
+            }
+        }
+        out.counters.push(("imported_counterless_credentials_checked".into(), 1));
+    }
     out.counters.push(("assertions".into(), assertions));
     out.counters.push(("boundary_steps".into(), boundary));
     let cls = start_class(&h);
